@@ -139,6 +139,14 @@ def card_text_task(task):
             f'patterns x 2 spellings of ten', 'evaluations': n, 'failures': bad}}
 
 
+def shared_c06_task(task):
+    """the ways of naming cards in an operation (None, a count, a sequence, ONE bare Card object) mean the same cards: the clauses live
+    in the C06 contracts of burn_card / deal_hole / deal_board (`*_what_was_named`, `*_what_was_asked`) and are run here too"""
+    import props.c06 as p06
+    from pyvc.runner import relabel
+    return relabel(p06.vc_task(task), 'C19')
+
+
 def main(argv=None):
     chk = Check('C19', 'proof', argv)
     source(EXTRA)
@@ -162,6 +170,11 @@ def main(argv=None):
         for S, B in ((1, 1), (0, 1), (1, 0)):
             sh = Shape(n=n, S=S, T=1, B=B, H=1).as_dict()
             tasks.append({'module': M, 'fn': 'vc_task', 'kind': 'post_init', 'shape': sh, 'chips': 'int', 'timeout_ms': to, 'name': f'post_init/n{n}S{S}B{B}'})
+    import props.c06 as p06
+    for name in ('burn_card', 'deal_hole', 'deal_board'):
+        for sh in p06.shapes(chk.tier):
+            tasks.append({'module': M, 'fn': 'shared_c06_task', 'name': f'{name}/n{sh.n}', 'contract': name, 'shape': sh.as_dict(),
+                          'timeout_ms': 120000 if thorough else 40000, 'weight': 20 * sh.n})
     tasks.append({'module': M, 'fn': 'card_roundtrip_task', 'name': 'card-roundtrip'})
     tasks.append({'module': M, 'fn': 'card_text_task', 'L': 3 if thorough else 2, 'name': 'card-text', 'weight': 50})
     chk.run_tasks(tasks)
